@@ -140,8 +140,10 @@ def run(ctx):
                         rep(f"spectrum changes under the gauge move at vertex {v}", vertex=v); break
                     ctx.case((tag, "gauge", v), nontrivial=E >= 3)
                 # ---- vertex permutations
-                for t in range(2):
+                for t in range(3):
                     o = rng.permutation(n)
+                    if t == 2:                                   # the ordering in the narrowest integer dtype that holds it (uint8 up to 256 vertices, ...)
+                        o = o.astype(np.uint8 if n <= 256 else np.uint16 if n <= 65536 else np.int64)
                     pl = permute_vertices(l, o)
                     Hp = ham.majorana_hamiltonian(pl, c, u, J)
                     inv = np.argsort(o)
